@@ -215,7 +215,8 @@ def evaluate_file(prop, path):
     return case, prop.evaluate(case)
 
 
-def run_property(prop_id, tier, seed, replay=None, jobs=None, out=sys.stdout):
+def run_property(prop_id, tier, seed, replay=None, jobs=None, out=sys.stdout,
+                 opt_pass=False):
     t0 = time.time()
     prop = _get_prop(prop_id)
     known, fixed = load_known(prop_id)
@@ -266,7 +267,7 @@ def run_property(prop_id, tier, seed, replay=None, jobs=None, out=sys.stdout):
                 violations.append((os.path.relpath(path, ROOT), [v.as_dict() for v in bad]))
 
     # ---- 2. known findings
-    for entry in known:
+    for entry in ([] if opt_pass else known):
         rep = entry.get('replay')
         reproduced = None
         if rep:
@@ -284,7 +285,7 @@ def run_property(prop_id, tier, seed, replay=None, jobs=None, out=sys.stdout):
 
     # ---- 3. generated campaign
     budget = prop.budget(tier)
-    examples = int(budget.get('examples', 0))
+    examples = 0 if opt_pass else int(budget.get('examples', 0))
     ctx = multiprocessing.get_context('fork')
     sweeps = list(prop.sweeps(tier)) if hasattr(prop, 'sweeps') else []
     exhaustive_parts = []
@@ -353,6 +354,10 @@ def run_property(prop_id, tier, seed, replay=None, jobs=None, out=sys.stdout):
         property_id=prop_id, tier=tier, seed=seed, level=prop.LEVEL,
         coverage=coverage, assumptions=list(prop.ASSUMPTIONS), wall_s=round(wall, 2),
         violations=len(seen))
+    if opt_pass:
+        say("%s under python -O (asserts stripped): %d replays and enumerated cases, "
+            "%d violation(s)" % (prop_id, total.evaluations, len(seen)))
+        return 2 if harness_errors else (1 if seen else 0)
     if not harness_errors:
         edir = os.environ.get('VERIF_EVIDENCE_DIR') or os.path.join(ROOT, 'evidence')
         os.makedirs(edir, exist_ok=True)
